@@ -72,6 +72,18 @@ def check(rep, tier, seed):
             recs_w = [wclasses[c]() for c in h]
             for pr in (None, ("s", [3, 3]), ("s", [2 * z + 1 for z in pop_sizes(wsm)])):
                 wide.append("sites %s %s %s %s" % (",".join(wcols), model_samples(wsm), model_project(pr), model_records(recs_w)))
+    # one population of more than 85 samples (beyond the factorial table, where an implementation may switch to another way
+    # of computing the weights), projected: sites with few and with almost only derived alleles in every order - what a site
+    # with few derived alleles leaves in a scratch table must not show in the next one
+    for n in ((90,) if tier == "quick" else (86, 90, 120, 171)):
+        bcols = ["b%d" % i for i in range(n)]
+        bsm = [(c, "A") for c in bcols]
+        def brec(a):
+            return ["1/1"] * (a // 2) + ["0/1"] * (a % 2) + ["0/0"] * (n - a // 2 - a % 2)
+        lo, mid, hi, top = 5, n, 2 * n - 8, 2 * n
+        for h in ([lo, hi], [hi, lo], [lo, top], [mid, hi, lo, hi], [0, hi], [lo, lo, hi], [hi, top, lo, mid]):
+            for m in (40, 2 * n - 100 if 2 * n - 100 > 3 else 7):
+                wide.append("sites %s %s %s %s" % (",".join(bcols), model_samples(bsm), model_project(("s", [m + 1])), model_records([brec(a) for a in h])))
     compare_cases(rep, "site-histories-wide-cohorts", wide, tol=TOL, nontrivial=lambda c, m: len(set(m.split()[1:-1])) > 1,
                   classify=lambda c, m, i: "state-leak:site-reader", spec=True)
 
